@@ -278,21 +278,28 @@ def run(tier, rep):
         r3 = C.run_tlc("MCLazyCompile", "LazyCompile_head3.cfg", allow_violation=False, heap="16g", timeout=3000)
         rep.tlc("LazyCompile[head, 3 threads]", r3)
     jobs, info = build_jobs(tier, rnd)
-    res = C.pmap(one_run, jobs, chunk=8)
-    traces = [x[0] for x in res]
-    n_get = sum(1 for t in traces for e in t["ev"] if e["ev"] == "getrules")
+    # executed and validated in slices (bounded memory in the thorough tier)
+    verdicts, st, kept, _first = C.run_sliced(one_run, jobs, "LazyCompileTrace", slice_size=12000, chunk=8,
+                                              trace_of=lambda x: x[0],
+                                              keep=lambda x: (sum(1 for e in x[0]["ev"] if e["ev"] == "getrules"), len(x[0]["ev"])),
+                                              shard=1500)
+    n_get = sum(k[0] for k in kept)
     if n_get == 0:
         raise C.MachineryError("no getRules observation recorded: the observer lost its binding")
-    verdicts, st = C.validate_traces("LazyCompileTrace", traces, shard=1500)
-    rep.tlc_stats("LazyCompileTrace[threads]", st, len(traces))
-    for job, t, (v, pos) in zip(jobs, traces, verdicts):
+    rep.tlc_stats("LazyCompileTrace[threads]", st, len(jobs))
+    shown = 0
+    for job, (v, pos) in zip(jobs, verdicts):
         if v != "ok":
+            obs = []
+            if shown < 25:      # the schedule is deterministic: the trace is recorded again for the report
+                shown += 1
+                obs = one_run(job)[0]["ev"][max(0, pos - 4): pos]
             rep.violation(_key("threads", job[0], job[1], job[2], v),
                           {"engine": "trace", "module": "LazyCompileTrace", "clause": v, "event_index": pos - 1,
                            "kind": "threads", "config": job[0], "calls": job[1], "schedule": job[2],
-                           "observed": t["ev"][max(0, pos - 4): pos]})
-    rep.sample({"config": jobs[0][0], "calls": jobs[0][1], "schedule": jobs[0][2], "events": len(traces[0]["ev"])})
-    rep.sample({"config": jobs[-1][0], "calls": jobs[-1][1], "schedule": jobs[-1][2], "events": len(traces[-1]["ev"])})
+                           "observed": obs})
+    rep.sample({"config": jobs[0][0], "calls": jobs[0][1], "schedule": jobs[0][2], "events": kept[0][1]})
+    rep.sample({"config": jobs[-1][0], "calls": jobs[-1][1], "schedule": jobs[-1][2], "events": kept[-1][1]})
     # nested / re-entrant
     njobs = []
     for cfg in (["commonmark", "js-default"] if tier == "quick" else CONFIGS):
